@@ -279,6 +279,7 @@ struct HoleDirs {
     replace: Vec<(String, String, String)>,
     self_name: Option<String>,
     nosig: bool,
+    probe: Option<String>,
 }
 
 fn parse_quoted(s: &str) -> R<(String, &str)> {
@@ -307,7 +308,7 @@ fn parse_quoted(s: &str) -> R<(String, &str)> {
 
 fn parse_dirs(lines: &[&str]) -> R<HoleDirs> {
     // join continuation lines: a directive starts with a keyword at line start (after trim)
-    let kws = ["subst ", "closure ", "loop ", "before ", "after ", "replace ", "selfname ", "nosig"];
+    let kws = ["subst ", "closure ", "loop ", "before ", "after ", "replace ", "selfname ", "nosig", "probe ", "hint "];
     let mut items: Vec<String> = Vec::new();
     for l in lines {
         let t = l.trim();
@@ -332,6 +333,8 @@ fn parse_dirs(lines: &[&str]) -> R<HoleDirs> {
                 let (k, v) = kv.split_once('=').ok_or_else(|| Bail(format!("bad subst {kv}")))?;
                 d.subst.push((k.to_string(), v.to_string()));
             }
+        } else if let Some(rest) = it.strip_prefix("probe ").or_else(|| it.strip_prefix("hint ")) {
+            d.probe = Some(rest.trim().to_string());
         } else if let Some(rest) = it.strip_prefix("selfname ") {
             d.self_name = Some(rest.trim().to_string());
         } else if let Some(rest) = it.strip_prefix("closure ") {
@@ -803,6 +806,11 @@ fn transform_body(
         fired.push(format!("REWRITE `{snip}` => `{text}` ({why})"));
     }
     let inner = apply_edits(&src.text, lo + 1, hi - 1, edits)?;
+    if let Some(p) = &dirs.probe {
+        // ghost-only clause localisation: bind the tail value, assert the clauses, return it
+        fired.push("GHOST tail-hint (body value bound to __r, proof block, __r returned)".into());
+        return Ok(format!("{{ {prefix}let __r = {{ {inner} }}; proof {{ {p} }} __r }}"));
+    }
     Ok(format!("{{ {prefix}{inner}}}"))
 }
 
